@@ -13,6 +13,7 @@ Definition text (i : item) : list Z :=
   | IOp o => op_text o
   | IDot s => 46 :: s
   | IOpen => [40] | IClose => [41]
+  | IQuest => [63] | IColon => [58] | ILBrack => [91] | IRBrack => [93]
   end.
 Definition sp (b : bool) : list Z := if b then [32] else [].
 
@@ -32,11 +33,13 @@ Definition pre_sp (mw : bool) (st : pst) (i : item) : bool :=
       | _ => if op_is_keyword o then id_hazard st else op_hazard st o
       end
   | IDot _ => match mk st with MNum => true | _ => false end
+  | IQuest | IColon => negb mw
   | _ => false
   end.
 Definition post_sp (mw : bool) (i : item) : bool :=
   match i with
   | IOp o => match op_kind o with KBin => negb mw | _ => op_is_keyword o && negb mw end
+  | IQuest | IColon => negb mw
   | _ => false
   end.
 Definition after (mw : bool) (st : pst) (i : item) : pst := fst (emit mw i st).
@@ -72,7 +75,7 @@ Proof. destruct o; discriminate. Qed.
 (* ---- what an emission appends ---- *)
 Lemma emit_out mw i st : snd (emit mw i st) = sp (pre_sp mw st i) ++ text i ++ sp (post_sp mw i).
 Proof.
-  destruct i as [s|s|b f|o|s| |]; unfold emit, pre_sp, post_sp, text.
+  destruct i as [s|s|b f|o|s| | | | | |]; unfold emit, pre_sp, post_sp, text.
   - rewrite seq_snd, psbi_snd, pr_snd. simpl. rewrite app_nil_r. reflexivity.
   - rewrite !seq_snd, psbi_snd, pr_snd. simpl. rewrite !app_nil_r. reflexivity.
   - rewrite !seq_snd, pr_snd. simpl snd at 2. rewrite !app_nil_r.
@@ -90,6 +93,10 @@ Proof.
         simpl snd; rewrite ?id_hazard_sp, ?op_hazard_sp; simpl; rewrite ?app_nil_r; try reflexivity.
       all: try (rewrite <- app_assoc; reflexivity).
   - rewrite !seq_snd, !pr_snd. destruct (mk st); simpl; rewrite ?app_nil_r; reflexivity.
+  - reflexivity.
+  - reflexivity.
+  - rewrite !seq_snd, !ps_snd, pr_snd. rewrite <- app_assoc. reflexivity.
+  - rewrite !seq_snd, !ps_snd, pr_snd. rewrite <- app_assoc. reflexivity.
   - reflexivity.
   - reflexivity.
 Qed.
@@ -114,7 +121,7 @@ Lemma after_lastc_mk mw st i :
   mk (after mw st i) = (if post_sp mw i then MNone else natural_mark i).
 Proof.
   intro Hne. unfold after.
-  destruct i as [s|s|b f|o|s| |]; unfold emit, post_sp, text, natural_mark in *.
+  destruct i as [s|s|b f|o|s| | | | | |]; unfold emit, post_sp, text, natural_mark in *.
   - rewrite seq_fst, pr_fst by exact Hne. split; reflexivity.
   - rewrite !seq_fst, set_mark_fst, pr_fst by exact Hne. split; reflexivity.
   - rewrite !seq_fst, set_mark_fst, pr_fst by discriminate. split; reflexivity.
@@ -135,6 +142,10 @@ Proof.
     + simpl. split; reflexivity.
     + rewrite (pr_fst (c :: s')) by discriminate. simpl. split; [|reflexivity].
       destruct s'; reflexivity.
+  - split; reflexivity.
+  - split; reflexivity.
+  - destruct mw; split; reflexivity.
+  - destruct mw; split; reflexivity.
   - split; reflexivity.
   - split; reflexivity.
 Qed.
@@ -171,7 +182,7 @@ Definition item_ok (i : item) : Prop :=
 Definition is_post (i : item) : bool :=
   match i with IOp o => match op_kind o with KPost => true | _ => false end | _ => false end.
 Definition ends_operand (i : item) : bool :=
-  match i with IId _ | INum _ | IRe _ _ | IDot _ | IClose => true | IOp _ => is_post i | IOpen => false end.
+  match i with IId _ | INum _ | IRe _ _ | IDot _ | IClose | IRBrack => true | IOp _ => is_post i | _ => false end.
 Definition starts_operand (i : item) : bool :=
   match i with
   | IId _ | INum _ | IRe _ _ | IOpen => true
@@ -186,11 +197,11 @@ Definition adj (a b : item) : bool :=
     match b with
     | IOp o => match op_kind o with
                | KBin => true
-               | KPost => match a with IId _ | IDot _ | IClose => true | _ => false end
+               | KPost => match a with IId _ | IDot _ | IClose | IRBrack => true | _ => false end
                | KPre => false
                end
-    | IDot _ => negb (is_post a)
-    | IClose => true
+    | IDot _ | ILBrack => negb (is_post a)
+    | IClose | IRBrack | IQuest | IColon => true
     | _ => false
     end
   else starts_operand b && (if is_update_pre a then match b with IId _ | IOpen => true | _ => false end else true).
@@ -239,6 +250,8 @@ Lemma post_hazards o : op_kind o = KPost -> hazard_chars false (op_text o) = [].
 Proof. destruct o; try discriminate; intros _; vm_compute; reflexivity. Qed.
 Lemma paren_hazards ls : hazard_chars ls [40] = [] /\ hazard_chars ls [41] = [].
 Proof. destruct ls; vm_compute; split; reflexivity. Qed.
+Lemma simple_hazards ls : hazard_chars ls [63] = [63; 46; 63] /\ hazard_chars ls [58] = [] /\ hazard_chars ls [91] = [] /\ hazard_chars ls [93] = [].
+Proof. destruct ls; vm_compute; repeat split; reflexivity. Qed.
 
 (* operator followed by a prefix operator: when the printer inserts no space,
    the first character of the second is no hazard for the first, with the one
@@ -294,7 +307,7 @@ Definition next_hd (mw : bool) (st' : pst) (post : bool) (r : list item) : Z :=
 
 Lemma text_ok i : item_ok i -> text i <> [] /\ hdz (text i) <> 32.
 Proof.
-  destruct i as [s|s|b f|o|s| |]; simpl; intro H.
+  destruct i as [s|s|b f|o|s| | | | | |]; simpl; intro H.
   - destruct H as [Hw _]. destruct (word_shape_hd s Hw) as [Hne Hs]. split; [exact Hne|]. apply id_start_facts in Hs. tauto.
   - destruct H as [Hne Hall]. split; [exact Hne|]. destruct s as [|c s']; [congruence|]. simpl in *.
     apply andb_true_iff in Hall as [Hc _]. apply digit_facts in Hc. unfold id_part, id_start, digit in Hc. lia.
@@ -303,6 +316,10 @@ Proof.
     destruct (op_is_keyword o) eqn:Ew.
     + destruct (Fk eq_refl) as (_ & Hs & _). apply id_start_facts in Hs. tauto.
     + destruct (Fn eq_refl) as (_ & _ & H32 & _). exact H32.
+  - split; [discriminate | simpl; lia].
+  - split; [discriminate | simpl; lia].
+  - split; [discriminate | simpl; lia].
+  - split; [discriminate | simpl; lia].
   - split; [discriminate | simpl; lia].
   - split; [discriminate | simpl; lia].
   - split; [discriminate | simpl; lia].
@@ -325,11 +342,15 @@ Definition need (ls : bool) (i : item) (c : Z) : bool :=
   | IOp o => if op_is_keyword o then negb (id_part c) && negb (c =? 92) else negb (memz c (hazard_chars ls (op_text o)))
   | IOpen => negb (memz c (hazard_chars ls [40]))
   | IClose => negb (memz c (hazard_chars ls [41]))
+  | IQuest => negb (memz c (hazard_chars ls [63]))
+  | IColon => negb (memz c (hazard_chars ls [58]))
+  | ILBrack => negb (memz c (hazard_chars ls [91]))
+  | IRBrack => negb (memz c (hazard_chars ls [93]))
   end.
 
 Lemma need_trivial ls i c : c = 32 \/ c = -1 -> need ls i c = true.
 Proof.
-  intros Hc. destruct i as [s|s|b f|o|s| |]; simpl.
+  intros Hc. destruct i as [s|s|b f|o|s| | | | | |]; simpl.
   - destruct Hc; subst; reflexivity.
   - destruct Hc; subst; reflexivity.
   - destruct Hc; subst; reflexivity.
@@ -339,6 +360,10 @@ Proof.
   - destruct Hc; subst; reflexivity.
   - destruct (paren_hazards ls) as [E _]. rewrite E. reflexivity.
   - destruct (paren_hazards ls) as [_ E]. rewrite E. reflexivity.
+  - destruct ls; destruct Hc; subst; reflexivity.
+  - destruct ls; destruct Hc; subst; reflexivity.
+  - destruct ls; destruct Hc; subst; reflexivity.
+  - destruct ls; destruct Hc; subst; reflexivity.
 Qed.
 
 Lemma hazard_not_id ls o c : id_part c = true -> memz c (hazard_chars ls (op_text o)) = false.
@@ -448,7 +473,7 @@ Proof.
   { intros lc m He Hnp Hhaz Hpre. unfold adj in Hadj. rewrite He in Hadj.
     assert (Hid : id_hazard (st_abs lc b60 m e) = true).
     { unfold id_hazard, st_abs. simpl. destruct Hhaz as [Hh|[Hh|Hh]]; [rewrite Hh; reflexivity | subst m; rewrite orb_true_r; reflexivity | rewrite Hh; apply orb_true_r]. }
-    destruct j as [s'|s'|b' f'|o'|s'| |]; try discriminate.
+    destruct j as [s'|s'|b' f'|o'|s'| | | | | |]; try discriminate.
     - destruct (op_facts o') as (_ & Fn & Fk).
       destruct (op_is_keyword o') eqn:Ew'.
       + exfalso. unfold pre_sp in Hpre. rewrite Ew', Hid in Hpre.
@@ -456,8 +481,12 @@ Proof.
       + destruct (Fn eq_refl) as (A & B & _ & B92 & _). simpl text. rewrite A. apply Z.eqb_neq in B92. rewrite B92.
         split; [reflexivity|]. intros _. apply Z.eqb_neq. exact B.
     - simpl. split; [reflexivity|]. intro Hm. subst m. unfold pre_sp, st_abs in Hpre. simpl in Hpre. discriminate.
+    - simpl. split; [reflexivity|]. intros _. reflexivity.
+    - simpl. split; [reflexivity|]. intros _. reflexivity.
+    - simpl. split; [reflexivity|]. intros _. reflexivity.
+    - simpl. split; [reflexivity|]. intros _. reflexivity.
     - simpl. split; [reflexivity|]. intros _. reflexivity. }
-  destruct i as [s|s|b f|o|s| |].
+  destruct i as [s|s|b f|o|s| | | | | |].
   - (* IId *) left. destruct Hi as [Hs _]. destruct (word_last_gen s Hs) as [Hl _].
     assert (Hhz : is_id_part (last s 0) = true \/ MNone = MRe \/ e = true).
     { destruct Hl as [Hl|Hl]; [left; exact Hl | right; right].
@@ -477,7 +506,7 @@ Proof.
       simpl natural_mark in Epre. rewrite Ew in Epre.
       assert (Hid : id_hazard (st_abs (last (text (IOp o)) 0) b60 MNone e) = true).
       { unfold id_hazard, st_abs. simpl lastc. simpl text. rewrite id_part_same, Hl. reflexivity. }
-      destruct j as [s'|s'|b' f'|o'|s'| |]; try discriminate.
+      destruct j as [s'|s'|b' f'|o'|s'| | | | | |]; try discriminate.
       * exfalso. unfold pre_sp in Epre. rewrite Hid in Epre. discriminate.
       * exfalso. unfold pre_sp in Epre. rewrite Hid in Epre. discriminate.
       * reflexivity.
@@ -496,7 +525,7 @@ Proof.
           simpl in Hprev. simpl in Epost. destruct (op_kind o); discriminate. }
         rewrite Hls. rewrite post_hazards; [reflexivity|]. simpl in Epost. destruct (op_kind o); try discriminate. reflexivity.
       * unfold adj in Hadj. change (ends_operand (IOp o)) with (is_post (IOp o)) in Hadj. rewrite Epost in Hadj. apply andb_true_iff in Hadj as [Hso Hupd].
-        destruct j as [s'|s'|b' f'|o'|s'| |]; try discriminate.
+        destruct j as [s'|s'|b' f'|o'|s'| | | | | |]; try discriminate.
         -- left. destruct Hj as [Hs' _]. destruct (word_last_gen s' Hs') as [_ Hh]. simpl text. rewrite (hazard_not_id ls o _ Hh). reflexivity.
         -- left. destruct (num_last s' Hj) as [_ Hh]. simpl text. rewrite (hazard_not_id ls o _ Hh). reflexivity.
         -- left. simpl text. simpl hdz.
@@ -523,4 +552,16 @@ Proof.
     destruct (OPER (last (text (IDot s)) 0) MNone eq_refl eq_refl (or_introl Hl') Epre) as [A _]. exact A.
   - left. simpl need. destruct (paren_hazards ls) as [E _]. rewrite E. reflexivity.
   - left. simpl need. destruct (paren_hazards ls) as [_ E]. rewrite E. reflexivity.
+  - (* "?" : its hazards are "?" and "." , no operand starts with those *)
+    left. unfold need. destruct (simple_hazards ls) as (E & _). rewrite E.
+    unfold adj in Hadj. simpl ends_operand in Hadj. apply andb_true_iff in Hadj as [Hso _].
+    assert (Hc : hdz (text j) <> 63 /\ hdz (text j) <> 46).
+    { destruct j as [s'|s'|b' f'|o'|s'| | | | | |]; try discriminate; simpl text; simpl hdz; try (split; discriminate).
+      - destruct Hj as [Hs' _]. destruct (word_last_gen s' Hs') as [_ Hh]. unfold id_part, id_start, digit in Hh. lia.
+      - destruct (num_last s' Hj) as [_ Hh]. unfold id_part, id_start, digit in Hh. lia.
+      - simpl in Hso. destruct o'; try discriminate; split; discriminate. }
+    destruct Hc as [H63 H46]. simpl. apply Z.eqb_neq in H63. apply Z.eqb_neq in H46. rewrite H63, H46. reflexivity.
+  - left. unfold need. destruct (simple_hazards ls) as (_ & E & _). rewrite E. reflexivity.
+  - left. unfold need. destruct (simple_hazards ls) as (_ & _ & E & _). rewrite E. reflexivity.
+  - left. unfold need. destruct (simple_hazards ls) as (_ & _ & _ & E). rewrite E. reflexivity.
 Qed.
